@@ -208,6 +208,16 @@ func (s *Sim) auxClient(name string) *clientState {
 func (s *Sim) runFinale() {
 	s.finale, s.noFaults = true, true
 	s.trace("finale")
+	// the read-backs of the finale are not part of the explored schedule: handlers
+	// are no longer parked at the proposed hook
+	s.mu.Lock()
+	s.gatesOpen = true
+	s.mu.Unlock()
+	for _, inc := range s.incs {
+		for _, c := range inc.conns {
+			s.openGate(c)
+		}
+	}
 	if s.dir != nil && s.dir.phase < 9 {
 		// the workload ended before the directed plan did: the plan is over
 		s.dir.phase, s.dir.allowed = 9, nil
